@@ -96,7 +96,7 @@ func (r *schedReader) Read(p []byte) (int, error) {
 	return n, nil
 }
 
-func buildStream(n int, ends []int, isDoc []bool) []byte {
+func buildStream(n int, ends []int, isDoc []bool, isBad ...bool) []byte {
 	data := make([]byte, 0, n)
 	start := 0
 	for i := range isDoc {
@@ -115,6 +115,9 @@ func buildStream(n int, ends []int, isDoc []bool) []byte {
 		}
 		if isDoc[i] {
 			d := "[" + strconv.Itoa(i+1) + "]"
+			if i < len(isBad) && isBad[i] {
+				d = "[" + strconv.Itoa(i+1) // malformed: the closing bracket is missing
+			}
 			if len(d) > l {
 				panic(fmt.Sprintf("line %d too short for a document", i+1))
 			}
@@ -248,6 +251,8 @@ func runStream(data []byte, ends []int, frags []int, errAt int, finOrder []int, 
 				items = append(items, streamItem{kind: "EOF"})
 			case errors.Is(it.Error, errInjected):
 				items = append(items, streamItem{kind: "ERR"})
+			case it.Error != nil && strings.HasPrefix(it.Error.Error(), "parsing input:"):
+				items = append(items, streamItem{kind: "PERR"})
 			default:
 				items = append(items, streamItem{kind: "other", err: fmt.Sprint(it.Error)})
 			}
@@ -326,6 +331,38 @@ func streamDemand(got, want []streamItem, readerFails bool) string {
 	return ""
 }
 
+// malformedDemand: up to and including the first error item the consumer receives exactly what the forwarder took off the queue;
+// what follows may be dropped item by item but keeps its order.
+func malformedDemand(got, offered []streamItem) string {
+	k := -1
+	for i, it := range offered {
+		if it.kind != "val" {
+			k = i
+			break
+		}
+	}
+	if k < 0 {
+		return "the model offered no error item"
+	}
+	if len(got) < k+1 {
+		return "items up to the first error are missing"
+	}
+	if fmtItems(got[:k+1]) != fmtItems(offered[:k+1]) {
+		return "the items up to and including the first error differ"
+	}
+	j := k + 1
+	for _, it := range got[k+1:] {
+		for j < len(offered) && fmtItems(offered[j:j+1]) != fmtItems([]streamItem{it}) {
+			j++
+		}
+		if j == len(offered) {
+			return "an item delivered after the first error is not among the remaining offers in order"
+		}
+		j++
+	}
+	return ""
+}
+
 func parseInts(s string) []int {
 	var out []int
 	for _, f := range strings.Split(s, ",") {
@@ -344,6 +381,7 @@ func gstream(args []string) error {
 	nBytes := fs.Int("n", 0, "stream length")
 	endsS := fs.String("ends", "", "line ends (comma separated)")
 	isDocS := fs.String("isdoc", "", "1/0 per line")
+	isBadS := fs.String("isbad", "", "1/0 per line: the line's document is malformed")
 	qcap := fs.Int("qcap", 2, "queue capacity of the model")
 	maxB := fs.Int("max", 0, "cap on the number of behaviours replayed (0 = all)")
 	prop := fs.String("property", "C09", "property id")
@@ -353,7 +391,13 @@ func gstream(args []string) error {
 	for _, v := range parseInts(*isDocS) {
 		isDoc = append(isDoc, v == 1)
 	}
-	data := buildStream(*nBytes, ends, isDoc)
+	var isBad []bool
+	anyBad := false
+	for _, v := range parseInts(*isBadS) {
+		isBad = append(isBad, v == 1)
+		anyBad = anyBad || v == 1
+	}
+	data := buildStream(*nBytes, ends, isDoc, isBad...)
 	// real queue capacity = (GOMAXPROCS+1)/2: make it the model's
 	runtime.GOMAXPROCS(2**qcap - 1)
 	f, err := os.Open(*dump)
@@ -368,9 +412,19 @@ func gstream(args []string) error {
 		want  []streamItem
 	}
 	var behs []beh
+	seenBeh := map[string]bool{}
 	_, err = tla.ReadDump(f, func(st tla.State) error {
 		if !st["closed"].B {
 			return nil
+		}
+		if anyBad {
+			// after the first error item the forwarder may drop items: the behaviours that differ only in what was dropped are ONE
+			// schedule; what is compared is the sequence the forwarder took off the queue (`offered`)
+			key := fmtSpec(st["errAt"]) + fmtSpec(st["hist"])
+			if seenBeh[key] {
+				return nil
+			}
+			seenBeh[key] = true
 		}
 		b := beh{errAt: int(st["errAt"].I)}
 		for _, h := range st["hist"].E {
@@ -380,7 +434,11 @@ func gstream(args []string) error {
 				b.fin = append(b.fin, int(h.E[1].I))
 			}
 		}
-		for _, d := range st["delivered"].E {
+		src := "delivered"
+		if anyBad {
+			src = "offered"
+		}
+		for _, d := range st[src].E {
 			it := streamItem{kind: d.E[0].S}
 			if it.kind == "val" {
 				it.docs = d.E[1].IntSlice()
@@ -418,7 +476,17 @@ func gstream(args []string) error {
 		if !closed {
 			rep.Add(run.Mismatch{Property: *prop, Sig: "noclose:" + sig, Cfg: cfg, Want: "channel closed", Got: "open"})
 		}
-		if fmtItems(got) != fmtItems(b.want) {
+		if anyBad {
+			// malformed streams are outside C09: what the code does there is compared with the model, a deviation is specification drift
+			if why := malformedDemand(got, b.want); why != "" {
+				if rep.Counters["malformed_stream_behaviour_not_as_specified"] < 3 {
+					fmt.Fprintf(os.Stderr, "malformed stream: %s: offered %s, delivered %s\n", why, fmtItems(b.want), fmtItems(got))
+				}
+				rep.Count("malformed_stream_behaviour_not_as_specified", 1)
+			} else {
+				rep.Count("malformed_stream_behaviours_as_specified", 1)
+			}
+		} else if fmtItems(got) != fmtItems(b.want) {
 			// Demanded by the property: the documents of the values, in order, are all documents (clean stream) or a prefix
 			// (failing reader); exactly one terminal item, last, io.EOF resp. the reader's error.  How documents are grouped
 			// into values (chunk boundaries) is the model's precision only: specification drift.
